@@ -197,6 +197,55 @@ theorem c04_shape (tot : Total alg stepT) (s0 s1 : σ) (hinit : alg.init s0 = .o
   intro k hk
   simp [h7, ratesUpTo, rateAt, hk]
 
+
+/-! ## the same criterion read off the *reported* rates
+
+`firstStop` (model, `Loop.lean`) looks only at `result.rates`.  `c04_reported`: for every optimizer whose step returns, the run executes
+exactly `firstStop result.rates` cycles — so a result whose rate list and length disagree with `firstStop` is not a behaviour of
+`optimize`.  The harness judges the results of the 84 real optimizers with this function (driver op `loop.firststop`). -/
+
+theorem rateDiffs_eq (rs : List R) (prev : R) : rateDiffs ar rs prev = diffs0 ar rs prev := by
+  induction rs generalizing prev with
+  | nil => rfl
+  | cons r rs ih => simp [rateDiffs, diffs0, ih]
+
+theorem ratesUpTo_length (s1 : σ) (k : Nat) : (ratesUpTo alg rate stepT s1 k).length = k := by simp [ratesUpTo]
+
+theorem ratesUpTo_take (s1 : σ) (N k : Nat) (hk : k ≤ N) :
+    (ratesUpTo alg rate stepT s1 N).take k = ratesUpTo alg rate stepT s1 k := by
+  simp only [ratesUpTo, ← List.map_take, List.take_range, Nat.min_eq_left hk]
+
+theorem stopAtRates_eq (s1 : σ) (N k : Nat) (h1 : 1 ≤ k) (hk : k ≤ N) :
+    stopAtRates ar cfg (ratesUpTo alg rate stepT s1 N) k = stopAt ar cfg alg rate stepT s1 k := by
+  have hget : (ratesUpTo alg rate stepT s1 N)[k - 1]? = some (rateAt alg rate stepT s1 k) := by
+    have : k - 1 < N := by omega
+    simp only [ratesUpTo, List.getElem?_map, List.getElem?_range this, Option.map_some]
+    congr 2; omega
+  simp only [stopAtRates, hget, ratesUpTo_take alg rate stepT s1 N k hk, rateDiffs_eq, stopAt]
+  simp [h1]
+
+/-- **C04 on what the caller sees**: the number of executed cycles (= the number of reported rates) is the first cycle at which the
+declarative criterion holds on the reported rate history — never earlier, never later. -/
+theorem c04_reported (tot : Total alg stepT) (s0 s1 : σ) (hinit : alg.init s0 = .ok s1) :
+    ∃ res sN bN, runBody ar cfg alg rate dir s0 = .ok (res, sN, bN) ∧ firstStop ar cfg res.rates = some res.rates.length := by
+  obtain ⟨N, res, sN, bN, h1, _, h3, h4, h5, _, h7, _, _⟩ := c04_first ar cfg alg rate dir stepT tot s0 s1 hinit
+  refine ⟨res, sN, bN, h5, ?_⟩
+  rw [h7, ratesUpTo_length]
+  unfold firstStop
+  rw [ratesUpTo_length]
+  have hfind : (List.range N).find? (fun i => stopAtRates ar cfg (ratesUpTo alg rate stepT s1 N) (i + 1)) = some (N - 1) := by
+    rw [List.find?_eq_some_iff_getElem]
+    refine ⟨?_, N - 1, by simp; omega, by simp, ?_⟩
+    · rw [stopAtRates_eq ar cfg alg rate stepT s1 N (N - 1 + 1) (by omega) (by omega)]
+      have : N - 1 + 1 = N := by omega
+      rw [this]; exact h3
+    · intro j hj
+      simp only [List.getElem_range]
+      rw [stopAtRates_eq ar cfg alg rate stepT s1 N (j + 1) (by omega) (by omega)]
+      simp [h4 (j + 1) (by omega) (by omega)]
+  rw [hfind]
+  simp; omega
+
 /-- the window `diffs[-patience:]` at cycle `k ≤ patience` still contains the first difference -/
 theorem lastN_contains_head (p : Nat) (d : R) (ds : List R) (h : (d :: ds).length ≤ p) : d ∈ lastN p (d :: ds) := by
   have : (d :: ds).length - p = 0 := by omega
